@@ -35,3 +35,15 @@ Theorem C11_inflight_survives :
   forall cfg s o, conserved s -> conserved (fst (lb_step cfg s o)).
 Proof. exact lb_step_conserved. Qed.
 Print Assumptions C11_inflight_survives.
+
+(* ---- admin operations against each other (step-level model Model/Conc.v, replayed on the real code by the sched suite) ---- *)
+From Helios Require Import Model.Conc Proofs.ConcProofs.
+(* each admin operation is one critical section of the balancer lock; in every reachable state of every schedule of any set of
+   operations on distinct names, a completed add is listed and a completed remove is absent, whatever strategy switches run *)
+Theorem C11_completed_admin_ops_hold_under_concurrency :
+  forall ops sched, names_ok ops ->
+    let ths := map (fun o => admin_thr (fst o) (snd o)) ops in
+    let ts0 := map (fun _ : Z * Z => mkTS (-1) (Some 0)) ops in
+    AInv ops (fst (fst (run_sched ths [1; 2] ts0 sched []))) (snd (fst (run_sched ths [1; 2] ts0 sched []))).
+Proof. exact s3_completed_ops_hold. Qed.
+Print Assumptions C11_completed_admin_ops_hold_under_concurrency.
